@@ -114,7 +114,6 @@ theorem prep_kind (s : Sess) (m m' : OutMsg) (h : (prep s m).1 = some m') : m'.k
 theorem prep_isRR (s : Sess) (m m' : OutMsg) (h : (prep s m).1 = some m') : isRR m' = isRR m := by
   unfold isRR; rw [prep_kind s m m' h]
 
-def rrK (m : OutMsg) : Nat := if isRR m then 1 else 0
 
 theorem q_queueForSend (s : Sess) (m : OutMsg) : Q (rrK m) s (queueForSend s m) := by
   unfold queueForSend
@@ -1377,6 +1376,334 @@ theorem callbacks_foldl_deliver (ms : List InMsg) (s : Sess) :
   | nil => simp [cbList]
   | cons m ms ih =>
     simp only [List.foldl_cons, ih, callbacks_deliver, deliver_target, cbList, List.append_assoc, List.singleton_append]
+
+/-! ## every event: ResendRequests are created only in reaction to inbound messages -/
+
+theorem q_shutdownWithReason (s : Sess) (incr : Bool) : Q 0 s (shutdownWithReason s incr).1 := by
+  unfold shutdownWithReason
+  dsimp only
+  q_peel
+
+theorem q_logonFixMsgIn (s : Sess) (m : InMsg) : Q 1 s (logonFixMsgIn s m).1 := by
+  unfold logonFixMsgIn
+  split
+  · exact (Q.refl s).mono (Nat.zero_le _)
+  · have hl := q_handleLogon s m
+    generalize handleLogon s m = r at hl
+    obtain ⟨s', o⟩ := r
+    dsimp only at hl
+    split
+    all_goals (try dsimp only)
+    all_goals first
+      | (rename_i heq; cases heq; exact hl.mono (Nat.zero_le _))
+      | (rename_i heq; cases heq; exact (hl.trans0 (q_shutdownWithReason _ _)).mono (Nat.zero_le _))
+      | (rename_i heq; cases heq; simpa using hl.trans (q_sendResendRequest _ _ _))
+      | skip
+
+
+theorem K_le_one (s : Sess) : K s ≤ 1 := by unfold K; split <;> omega
+
+theorem q_fixMsgInCore (s : Sess) (m : InMsg) (hfix : s.cfg.lookThroughPending = true) : Q (inBudget s) s (fixMsgInCore s m).1 := by
+  cases hst : s.st with
+  | latent => simp only [fixMsgInCore, inBudget, curResend, hst]; exact (Q.refl s).mono (Nat.zero_le _)
+  | notSessionTime => simp only [fixMsgInCore, inBudget, curResend, hst]; exact (Q.refl s).mono (Nat.zero_le _)
+  | logon => simp only [fixMsgInCore, inBudget, curResend, hst]; exact q_logonFixMsgIn s m
+  | logout =>
+    simp only [fixMsgInCore, inBudget, curResend, hst]
+    have h := (q_inSessionFixMsgIn s m).mono (K_le_one s)
+    generalize inSessionFixMsgIn s m = r at h
+    obtain ⟨s', nx⟩ := r
+    dsimp only at h ⊢
+    split <;> exact h
+  | inSession => simp only [fixMsgInCore, inBudget, curResend, hst]; exact (q_inSessionFixMsgIn s m).mono (K_le_one s)
+  | pendingIn => simp only [fixMsgInCore, inBudget, curResend, hst]; exact (q_inSessionFixMsgIn s m).mono (K_le_one s)
+  | resend st c f =>
+    have := q_resendFixMsgIn s st c f m (by simp [curResend, hst])
+    simpa [fixMsgInCore, inBudget, curResend, hst] using this
+  | pendingResend st c f =>
+    have := q_resendFixMsgIn s st c f m (by simp [curResend, hst, hfix])
+    simpa [fixMsgInCore, inBudget, curResend, hst, hfix] using this
+
+
+theorem inBudget_le_one (s : Sess) : inBudget s ≤ 1 := by
+  unfold inBudget
+  split
+  · split <;> omega
+  · omega
+
+theorem inbox_setState (fuel : Nat) (s : Sess) (nx : SState) (h : s.inbox = []) : (setState fuel s nx).inbox = [] := by
+  cases fuel with
+  | zero => unfold setState; exact h
+  | succ n =>
+    unfold setState
+    dsimp only
+    split
+    · have key : (if s.st.connected = true then (drainIn n (discMid (drainIn n s))).closeInbox else s).inbox = [] := by
+        split
+        · rfl
+        · exact h
+      generalize (if s.st.connected = true then (drainIn n (discMid (drainIn n s))).closeInbox else s) = x at key
+      split <;> exact key
+    · exact h
+
+/-- `s'` has no more ResendRequests written or queued than `s`, and still nothing buffered -/
+structure NoNew (s s' : Sess) : Prop where
+  rr : rrCount s' ≤ rrCount s
+  inbox : s.inbox = [] → s'.inbox = []
+  cfg : s'.cfg = s.cfg
+
+theorem NoNew.refl (s : Sess) : NoNew s s := ⟨Nat.le_refl _, id, rfl⟩
+theorem NoNew.trans {a b c : Sess} (h1 : NoNew a b) (h2 : NoNew b c) : NoNew a c :=
+  ⟨Nat.le_trans h2.rr h1.rr, fun h => h2.inbox (h1.inbox h), h2.cfg.trans h1.cfg⟩
+theorem Q.noNew {s s' : Sess} (h : Q 0 s s') : NoNew s s' := ⟨by simpa using h.rr, fun hi => by rw [h.inbox]; exact hi, h.cfg⟩
+
+theorem discMid_cfg (s : Sess) : (discMid s).cfg = s.cfg := by
+  unfold discMid
+  dsimp only
+  repeat' split
+  all_goals rfl
+
+theorem cfg_setState (fuel : Nat) (s : Sess) (nx : SState) (hi : s.inbox = []) : (setState fuel s nx).cfg = s.cfg := by
+  cases fuel with
+  | zero => unfold setState; rfl
+  | succ n =>
+    unfold setState
+    dsimp only
+    split
+    · have key : (if s.st.connected = true then (drainIn n (discMid (drainIn n s))).closeInbox else s).cfg = s.cfg := by
+        split
+        · rw [drainIn_nil n s hi, drainIn_nil n _ (by rw [discMid_inbox]; exact hi)]
+          exact discMid_cfg s
+        · rfl
+      generalize (if s.st.connected = true then (drainIn n (discMid (drainIn n s))).closeInbox else s) = x at key
+      split <;> exact key
+    · rfl
+
+theorem noNew_setState (fuel : Nat) (s : Sess) (nx : SState) (hi : s.inbox = []) : NoNew s (setState fuel s nx) :=
+  ⟨rrCount_setState fuel s nx hi, fun _ => inbox_setState fuel s nx hi, cfg_setState fuel s nx hi⟩
+
+theorem noNew_checkSessionTime (fuel : Nat) (s : Sess) (a b : Bool) (hi : s.inbox = []) : NoNew s (checkSessionTime fuel s a b) := by
+  cases fuel with
+  | zero => unfold checkSessionTime; exact NoNew.refl s
+  | succ n =>
+    unfold checkSessionTime
+    dsimp only
+    split
+    · have h1 : NoNew s (if s.st.loggedOn = true then sendLogout s else s) := by
+        split
+        · exact (q_sendLogout s).noNew
+        · exact NoNew.refl s
+      exact h1.trans (noNew_setState _ _ _ (h1.inbox hi))
+    · have h1 : NoNew s (if (!s.st.sessionTime) = true then setState n s SState.latent else s) := by
+        split
+        · exact noNew_setState _ _ _ hi
+        · exact NoNew.refl s
+      generalize (if (!s.st.sessionTime) = true then setState n s SState.latent else s) = s1 at h1
+      split
+      · have h2 : NoNew s1 (if s1.st.loggedOn = true then sendLogout s1 else s1) := by
+          split
+          · exact (q_sendLogout s1).noNew
+          · exact NoNew.refl s1
+        generalize (if s1.st.loggedOn = true then sendLogout s1 else s1) = s2 at h2
+        have h3 : NoNew s2 (dropAndReset s2) := (q_dropAndReset s2).noNew
+        have h123 := (h1.trans h2).trans h3
+        exact h123.trans (noNew_setState _ _ _ (h123.inbox hi))
+      · exact h1
+
+theorem q_inSessionTimeout (s : Sess) (e : TimerEv) : Q 0 s (inSessionTimeout s e).1 := by
+  unfold inSessionTimeout
+  q_cases
+
+theorem q_timeoutCore (s : Sess) (e : TimerEv) : Q 0 s (timeoutCore s e).1 := by
+  unfold timeoutCore
+  have h := q_inSessionTimeout s e
+  generalize inSessionTimeout s e = r at h
+  obtain ⟨s', p⟩ := r
+  split
+  all_goals (try dsimp only at h ⊢)
+  all_goals first | exact h | exact Q.refl s
+
+theorem q_stopNext (s : Sess) : Q 0 s (stopNext s).1 := by
+  unfold stopNext
+  split
+  all_goals (try dsimp only)
+  all_goals first | exact q_initiateLogout s | exact Q.refl s
+
+theorem noNew_connect (s : Sess) : NoNew s (connect s).1 := by
+  unfold connect
+  split
+  · exact NoNew.refl s
+  · split
+    · dsimp only
+      split
+      · exact (q_dropAndReset s).noNew
+      · exact NoNew.refl s
+    · have h0 : NoNew s s.openConn := ⟨Nat.le_refl _, fun _ => rfl, rfl⟩
+      dsimp only
+      split
+      · exact h0.trans ⟨Nat.le_refl _, id, rfl⟩
+      · have h1 : Q 0 s.openConn (if s.openConn.cfg.refreshOnLogon = true then s.openConn.emit Obs.refresh else s.openConn) := by q_peel
+        generalize (if s.openConn.cfg.refreshOnLogon = true then s.openConn.emit Obs.refresh else s.openConn) = s1 at h1
+        have h2 : Q 0 s1 (if s1.cfg.resetOnLogon = true then s1.storeReset else s1) := by q_peel
+        generalize (if s1.cfg.resetOnLogon = true then s1.storeReset else s1) = s2 at h2
+        have h3 := q_sendLogonInReplyTo s2 (shouldSendReset s2)
+        exact h0.trans (((h1.trans0 h2).trans0 h3).noNew.trans ⟨Nat.le_refl _, id, rfl⟩)
+
+
+theorem st_setState (fuel : Nat) (s : Sess) (nx : SState) : (setState fuel s nx).st = nx := by
+  cases fuel with
+  | zero => unfold setState; rfl
+  | succ n =>
+    unfold setState
+    dsimp only
+    split
+    · split <;> rfl
+    · rfl
+
+theorem noNew_emit (s : Sess) (o : Obs) (h : notWire o = true) : NoNew s (s.emit o) := (q_emit s o h).noNew
+
+/-- `NoNew` with a budget -/
+structure Grow (k : Nat) (s s' : Sess) : Prop where
+  rr : rrCount s' ≤ rrCount s + k
+  inbox : s.inbox = [] → s'.inbox = []
+  cfg : s'.cfg = s.cfg
+
+theorem NoNew.grow {s s' : Sess} (h : NoNew s s') (k : Nat) : Grow k s s' := ⟨by have := h.rr; omega, h.inbox, h.cfg⟩
+theorem Grow.after {k : Nat} {a b c : Sess} (h1 : Grow k a b) (h2 : NoNew b c) : Grow k a c :=
+  ⟨by have := h1.rr; have := h2.rr; omega, fun h => h2.inbox (h1.inbox h), h2.cfg.trans h1.cfg⟩
+theorem NoNew.before {k : Nat} {a b c : Sess} (h1 : NoNew a b) (h2 : Grow k b c) : Grow k a c :=
+  ⟨by have := h1.rr; have := h2.rr; omega, fun h => h2.inbox (h1.inbox h), h2.cfg.trans h1.cfg⟩
+theorem Q.grow {k : Nat} {s s' : Sess} (h : Q k s s') : Grow k s s' := ⟨h.rr, fun hi => by rw [h.inbox]; exact hi, h.cfg⟩
+
+theorem grow_incoming (fuel : Nat) (s : Sess) (m : InMsg) (hi : s.inbox = []) (hfix : s.cfg.lookThroughPending = true) :
+    Grow (inBudget s) s (incoming (fuel + 1) s (some m)) := by
+  by_cases hst : s.st.sessionTime = true
+  · by_cases hc : s.st.connected = true
+    · rw [incoming_some fuel s m hc]
+      have hq := (q_fixMsgInCore s m hfix).grow
+      have h1 := noNew_setState fuel (fixMsgInCore s m).1 (fixMsgInCore s m).2 (hq.inbox hi)
+      generalize setState fuel (fixMsgInCore s m).1 (fixMsgInCore s m).2 = x at h1 ⊢
+      exact (hq.after h1).after (noNew_emit x (.armPeer (1200 * x.hb)) rfl)
+    · unfold incoming
+      simp only [checkSessionTime_noop fuel s hst, hc, Bool.not_false, if_true]
+      exact (NoNew.refl s).grow _
+  · unfold incoming
+    dsimp only
+    have h0 := noNew_checkSessionTime fuel s true true hi
+    have hst0 : (checkSessionTime fuel s true true).st.connected = false := by
+      have hs : s.st = .notSessionTime := by
+        cases h : s.st <;> simp_all [SState.sessionTime]
+      cases fuel with
+      | zero => unfold checkSessionTime; rw [hs]; rfl
+      | succ n =>
+        unfold checkSessionTime
+        simp only [hs, SState.sessionTime, Bool.not_false, Bool.not_true, if_true, Bool.false_eq_true, if_false, st_setState]
+        rfl
+    generalize checkSessionTime fuel s true true = s0 at h0 hst0
+    simp only [hst0, Bool.not_false, if_true]
+    exact h0.grow _
+
+theorem noNew_incoming_none (fuel : Nat) (s : Sess) (hi : s.inbox = []) : NoNew s (incoming fuel s none) := by
+  cases fuel with
+  | zero => unfold incoming; exact NoNew.refl s
+  | succ n =>
+    unfold incoming
+    dsimp only
+    have h0 := noNew_checkSessionTime n s true true hi
+    generalize checkSessionTime n s true true = s0 at h0
+    split
+    · exact h0
+    · exact h0.trans (noNew_emit s0 (.armPeer (1200 * s0.hb)) rfl)
+
+/-- **every event, every state** (nothing buffered in the inbound channel, fixed code): the number of ResendRequests
+    written or queued grows by at most the event's budget; the buffer stays empty unless the event is an arrival -/
+theorem grow_stepCore (s : Sess) (e : Ev) (hi : s.inbox = []) (hfix : s.cfg.lookThroughPending = true)
+    (hna : ∀ m, e ≠ .arrive m) : Grow (evBudget s e) s (stepCore s e).1 := by
+  unfold stepCore
+  cases e with
+  | connect => exact (noNew_connect s).grow _
+  | incomingMsg m =>
+    cases m with
+    | none => exact (noNew_incoming_none _ s hi).grow _
+    | some m => dsimp only [evBudget]; rw [fuelOf_succ]; exact grow_incoming _ s m hi hfix
+  | arrive m => exact absurd rfl (hna m)
+  | pop =>
+    dsimp only [evBudget]
+    split
+    · exact (NoNew.refl s).grow _
+    · simp only [hi]; exact (NoNew.refl s).grow _
+  | timeout ev =>
+    dsimp only [evBudget]
+    have h0 := noNew_checkSessionTime (fuelOf s) s true true hi
+    generalize checkSessionTime (fuelOf s) s true true = s0 at h0
+    have h1 := (q_timeoutCore s0 ev).noNew
+    generalize timeoutCore s0 ev = r at h1
+    obtain ⟨s1, nx⟩ := r
+    dsimp only at h1 ⊢
+    have h2 := noNew_setState (fuelOf s) s1 nx (h1.inbox (h0.inbox hi))
+    exact ((h0.trans h1).trans h2).grow _
+  | disconnected =>
+    dsimp only [evBudget]
+    split
+    · exact (noNew_setState _ s _ hi).grow _
+    · exact (NoNew.refl s).grow _
+  | stop =>
+    dsimp only [evBudget]
+    have h0 : NoNew s s.setPendingStop := ⟨Nat.le_refl _, id, rfl⟩
+    have h1 := (q_stopNext s.setPendingStop).noNew
+    generalize stopNext s.setPendingStop = r at h1
+    obtain ⟨s1, nx⟩ := r
+    dsimp only at h1 ⊢
+    have h2 := noNew_setState (fuelOf s) s1 nx (h1.inbox hi)
+    exact ((h0.trans h1).trans h2).grow _
+  | send m =>
+    dsimp only [evBudget]
+    have hq := (q_queueForSend s m).grow
+    unfold queueForSend at hq
+    generalize prep s m = r at hq
+    obtain ⟨o, s'⟩ := r
+    cases o with
+    | none => exact hq
+    | some m' => exact hq
+  | flush =>
+    dsimp only [evBudget]
+    have h0 := noNew_checkSessionTime (fuelOf s) s true true hi
+    generalize checkSessionTime (fuelOf s) s true true = s0 at h0
+    split
+    · exact (h0.trans (q_sendQueued s0).noNew).grow _
+    · exact (h0.trans (q_clearQueue s0).noNew).grow _
+  | sessionTime r sm => exact (noNew_checkSessionTime _ s r sm hi).grow _
+
+theorem rrAfter_le (s : Sess) (e : Ev) (hi : s.inbox = []) (hfix : s.cfg.lookThroughPending = true) (hna : ∀ m, e ≠ .arrive m) :
+    rrAfter (step s e) ≤ s.toSend.countP isRR + evBudget s e := by
+  rw [rrAfter_step]
+  have := (grow_stepCore s.clearLog e hi hfix hna).rr
+  rw [rrCount_clearLog] at this
+  exact this
+
+theorem step_keeps (s : Sess) (e : Ev) (hi : s.inbox = []) (hfix : s.cfg.lookThroughPending = true) (hna : ∀ m, e ≠ .arrive m) :
+    (step s e).1.inbox = [] ∧ (step s e).1.cfg.lookThroughPending = true := by
+  have h := grow_stepCore s.clearLog e hi hfix hna
+  exact ⟨h.inbox hi, by show (stepCore s.clearLog e).1.cfg.lookThroughPending = true; rw [h.cfg]; exact hfix⟩
+
+
+/-! histories -/
+
+theorem rr_history (evs : List Ev) : ∀ (s : Sess), s.inbox = [] → s.cfg.lookThroughPending = true →
+    (∀ e ∈ evs, ∀ m, e ≠ .arrive m) →
+    (wiresOf (histObs s evs)).countP isRR + (histEnd s evs).toSend.countP isRR ≤ s.toSend.countP isRR + histBudget s evs := by
+  induction evs with
+  | nil => intro s _ _ _; simp [histObs, histEnd, histBudget, wiresOf]
+  | cons e es ih =>
+    intro s hi hfix hna
+    have hna' : ∀ m, e ≠ .arrive m := hna e (by simp)
+    have h1 := rrAfter_le s e hi hfix hna'
+    obtain ⟨hi', hfix'⟩ := step_keeps s e hi hfix hna'
+    have h2 := ih (step s e).1 hi' hfix' (fun e' he' => hna e' (by simp [he']))
+    simp only [histObs, histEnd, histBudget, wiresOf_append, List.countP_append]
+    unfold rrAfter at h1
+    omega
+
 
 /-! ## concrete sessions for the non-vacuity checks (`#guard`s in Props) -/
 
